@@ -796,7 +796,7 @@ pub extern "C" fn chk_resync(ptr: *const u8, n: usize) -> u32 {
     k
 }
 
-/// Input: [cut] ‖ m1 (2 bytes) ‖ m2 (rest). frame(m1) cut at `cut` (assumed: no 0x1b run or
+/// Input: [cut][l1] ‖ m1 (l1 bytes) ‖ m2 (rest). frame(m1) cut at `cut` (assumed: no 0x1b run or
 /// escape sequence in progress there), followed by frame(m2).
 #[no_mangle]
 pub extern "C" fn chk_cut(ptr: *const u8, n: usize) -> u32 {
@@ -805,15 +805,30 @@ pub extern "C" fn chk_cut(ptr: *const u8, n: usize) -> u32 {
         return 0;
     }
     let cut = x[0] as usize;
-    let m1 = &x[1..3];
-    let m2 = &x[3..];
+    let l1 = x[1] as usize;
+    if x.len() < 2 + l1 {
+        return 0;
+    }
+    let m1 = &x[2..2 + l1];
+    let m2 = &x[2 + l1..];
     let f1 = spec_encode(m1);
     if cut < 8 || cut >= f1.len() {
         return 0;
     }
-    // admissible cut: the kept prefix does not end in 0x1b, and the 4 bytes after a 1b1b1b1b quadruple are complete
+    // admissible cut: the kept prefix does not end in 0x1b and no escape sequence (1b1b1b1b + 4 bytes) is in progress
     assume(f1[cut - 1] != 0x1b);
     let mut j = 8;
+    while j + 4 <= cut {
+        if f1[j] == 0x1b && f1[j + 1] == 0x1b && f1[j + 2] == 0x1b && f1[j + 3] == 0x1b {
+            // an escape starts at j: its 4 payload bytes must be complete
+            if cut < j + 8 {
+                return 0;
+            }
+            j += 8;
+        } else {
+            j += 1;
+        }
+    }
     // position of the end escape: after payload + padding
     let esc_at = f1.len() - 8;
     if cut > esc_at && cut < f1.len() {
